@@ -230,6 +230,101 @@ def r_transforms(rule, root=None):
         rule.bad("RepeatX|shape", "RepeatX must remap_xyz once", A.where(LIB, fn))
 
 
+class ShapeSym:
+    """compose the transform combinators of a From<..> body symbolically: a shape is a map
+    from a point to S(point'); Move and remap_xyz substitute coordinates"""
+
+    def __init__(self):
+        self.env = S.SymEnv()
+        self.vals = {}
+        self.S = sp.Function("S")
+        self.X = (self.env.sym("x"), self.env.sym("y"), self.env.sym("z"))
+
+    def base(self):
+        return lambda p: self.S(*p)
+
+    def ev(self, e):
+        e = A.strip(e)
+        k = e.get("k")
+        if k == "Path" and len(e["segs"]) == 1 and e["segs"][0] in self.vals:
+            return self.vals[e["segs"][0]]
+        if k == "MethodCall" and e["method"] in ("clone", "into") and not e["args"]:
+            return self.ev(e["recv"])
+        if k == "Field" and A.unparse(e).replace(" ", "") == "v.shape":
+            return self.base()
+        if k == "Call":
+            segs = A.path_segs(e["func"]) or []
+            if segs[-2:] == ["Vec3", "new"]:
+                return tuple(S.to_sym(a, self.env) for a in e["args"])
+            if segs[-2:] == ["Tree", "from"]:
+                return self.ev(e["args"][0])
+        if k == "Unary" and e["op"] == "-":
+            v = self.ev(e["e"])
+            if isinstance(v, tuple):
+                return tuple(-c for c in v)
+            return -v
+        if k == "Struct" and A.path_segs(e["path"])[-1] == "Move":
+            f = {x["name"]: x["e"] for x in e["fields"]}
+            shape = self.ev(f["shape"])
+            off = self.ev(f["offset"])
+            if not callable(shape) or not isinstance(off, tuple):
+                raise S.Untranslatable("Move of %s" % A.unparse(e)[:40])
+            return lambda p, shape=shape, off=off: shape(tuple(a - b for a, b in zip(p, off)))
+        if k == "MethodCall" and e["method"] == "remap_xyz":
+            shape = self.ev(e["recv"])
+            coords = [self.ev(a) for a in e["args"]]
+            if not callable(shape):
+                raise S.Untranslatable("remap of a non-shape")
+
+            def f(p, shape=shape, coords=coords):
+                sub = dict(zip(self.X, p))
+                return shape(tuple(sp.sympify(c).subs(sub, simultaneous=True) for c in coords))
+
+            return f
+        return S.to_sym(e, self.env)
+
+    def run(self, fn):
+        tail = None
+        for s in fn["body"]["stmts"]:
+            if s.get("k") == "Let":
+                p = s["pat"]
+                if p.get("k") == "PTuple" and "axes" in A.unparse(s.get("init")):
+                    for n, ax in zip(p["elems"], self.X):
+                        self.vals[A.binding_name(n)] = ax
+                        self.env.vars[A.binding_name(n)] = ax
+                    continue
+                nm = A.binding_name(p)
+                v = self.ev(s["init"])
+                self.vals[nm] = v
+                if not callable(v) and not isinstance(v, tuple):
+                    self.env.vars[nm] = v
+                continue
+            e = A.stmt_expr(s)
+            if e is not None and not s.get("semi"):
+                tail = e
+        out = self.ev(tail)
+        if not callable(out):
+            raise S.Untranslatable("result is not a shape")
+        return out(self.X)
+
+
+def r_revolve_composition(rule, root=None):
+    fn = from_fn("RevolveY", root=root)
+    ss = ShapeSym()
+    try:
+        got = ss.run(fn)
+        x, y, z = ss.X
+        o = ss.env.sym("offset")
+        want = ss.S(sp.sqrt((x - o) ** 2 + z ** 2) + o, y, z)
+        a, b = got.args, want.args
+        if got.func == ss.S and len(a) == 3 and S.equal(a[0], b[0]) and S.equal(a[1], b[1]):
+            rule.ok("RevolveY(s, offset)(p) = s(dist(p, axis x = offset) + offset, y)", file=LIB, line=fn["ln"])
+        else:
+            rule.bad("RevolveY|composition", "RevolveY evaluates its shape at (%s, %s); revolving about the vertical axis through x = offset means (%s, %s)" % (a[0], a[1], b[0], b[1]), A.where(LIB, fn))
+    except (S.Untranslatable, KeyError, TypeError) as e:
+        rule.bad("RevolveY|composition|shape", "RevolveY is no longer a Move / remap_xyz / Move composition the checker understands (%s)" % e, A.where(LIB, fn))
+
+
 def _cmp_args(rule, name, fn, args, want, env, what):
     if args is None or len(args) != len(want):
         rule.bad("%s|args" % name, "%s: expected %d coordinate expressions (%s)" % (name, len(want), what), A.where(LIB, fn))
@@ -285,5 +380,7 @@ def run(ctx):
     ctx.guarded(r, r_named_constants)
     r = ctx.rule("R2", "primitives and CSG combinators equal their documented closed forms", 9)
     ctx.guarded(r, r_primitives)
+    r = ctx.rule("R3b", "RevolveY composes Move / remap / Move into a revolve about x = offset", 1)
+    ctx.guarded(r, r_revolve_composition)
     r = ctx.rule("R3", "transforms apply the inverse of their documented action, on the axis their name says", 36)
     ctx.guarded(r, r_transforms)
